@@ -759,6 +759,10 @@ func (p *pathCtx) modelNondets(model map[string]uint64) []NondetVal {
 		case "int":
 			v := evalTerm(nd.Term, model, memo)
 			out = append(out, NondetVal{Name: nd.Name, Kind: "int", Int: signExt(v, nd.Term.sort)})
+		case "env":
+			// environment reading (clock): informative only, the native replay uses the real clock
+			v := evalTerm(nd.Term, model, memo)
+			out = append(out, NondetVal{Name: nd.Name, Kind: "env", Int: int64(v)})
 		case "bool":
 			out = append(out, NondetVal{Name: nd.Name, Kind: "bool", Int: int64(evalTerm(nd.Term, model, memo))})
 		case "choose":
